@@ -11,7 +11,7 @@ INVARIANTS = ["TypeOK", "Refines", "RowIndep", "TermsRefine", "Layout", "Untouch
 
 TIERS = {
     # constants of MC_HFModel per tier; emit = fraction of specifications printed for replay
-    "quick": dict(MaxPlace=2, MaxChan=2, BinChoices={1, 2}, NPts=3, Settings={1, 2, 3, 4, 5, 6}, EmitMod=16),
+    "quick": dict(MaxPlace=2, MaxChan=2, BinChoices={1, 2}, NPts=2, Settings={1, 2, 3, 4}, EmitMod=10),
     "thorough": dict(MaxPlace=3, MaxChan=2, BinChoices={1, 2}, NPts=3, Settings={1, 2, 3, 4, 5, 6}, EmitMod=24),
 }
 
@@ -29,6 +29,20 @@ def tlc_run(tier, res_index):
     consts = dict(c, EmitCases=True, EmitMod=mod, EmitRes=res_index % mod)
     cfg = tlc.make_cfg(consts, invariants=INVARIANTS)
     return tlc.run("MC_HFModel", cfg, workers=16, timeout=7200)
+
+
+SIM = {"quick": dict(num=150, depth=14, MaxPlace=7), "thorough": dict(num=1500, depth=16, MaxPlace=9)}
+
+
+def tlc_sim(tier, sd):
+    """random walks beyond the exhaustive bound: large specifications (up to MaxPlace placements), every state checked
+    against the same invariants, every evaluated state printed"""
+    c = dict(TIERS[tier])
+    c.pop("EmitMod")
+    t = SIM[tier]
+    consts = dict(c, MaxPlace=t["MaxPlace"], EmitCases=True, EmitMod=1, EmitRes=0)
+    cfg = tlc.make_cfg(consts, invariants=INVARIANTS)
+    return tlc.run("MC_HFModel", cfg, workers=4, simulate=f"num={t['num']}", depth=t["depth"], timeout=3600, tag=f"sim{sd}")
 
 
 def group_chunks(lines, nchunks):
@@ -54,13 +68,20 @@ def run(prop: str, tier: str) -> int:
     if not res.cases_path:
         raise Machinery("MC_HFModel printed no cases")
     lines = open(res.cases_path).read().splitlines()
+    sim = tlc_sim(tier, sd)
+    if not sim.ok and sim.errors:
+        raise Machinery("MC_HFModel (simulation beyond the exhaustive bound): invariant fails:\n" + sim.tail[-3000:])
+    sim_lines = list(dict.fromkeys(open(sim.cases_path).read().splitlines())) if sim.cases_path else []
+    lines = lines + sim_lines
     rnd = random.Random(sd)
     backends = [("numpy", "64b")]
     if tier == "thorough":
         backends += [("jax", "64b"), ("pytorch", "64b"), ("tensorflow", "64b"), ("numpy", "32b"), ("pytorch", "32b")]
     else:
         backends += [[("pytorch", "64b"), ("jax", "64b"), ("tensorflow", "64b")][sd % 3]]
-    props = {"C01": ["C01"], "C02": ["C02"], "C10": ["C10"], "C12": ["C12", "C01"]}[prop]
+    # C01's text covers "batched or not": its replay includes the batched rows as well
+    props = {"C01": ["C01", "C10"], "C02": ["C02"], "C10": ["C10"], "C12": ["C12", "C01"]}[prop]
+    accept = {"C01": {"C01", "C10"}, "C02": {"C02"}, "C10": {"C10"}, "C12": {"C12"}}[prop]
     total = nontriv = specs = 0
     per_backend = {}
     for bi, (be, prec) in enumerate(backends):
@@ -88,7 +109,7 @@ def run(prop: str, tier: str) -> int:
             n_be += out["n"]
             nontriv += out["nontrivial"]
             for (p, key, detail, tags) in out["findings"]:
-                if p == prop:
+                if p in accept:
                     v.violation(f"[{be}/{prec}] {key}", detail, tags)
             for m, d in out["drift"]:
                 v.model_drift(m, d)
@@ -102,7 +123,7 @@ def run(prop: str, tier: str) -> int:
     v.coverage.update(
         states=res.distinct, transitions=res.generated, depth=res.depth, tlc_cached=res.cached, tlc_wall_s=round(res.wall, 1),
         tlc_invariants=INVARIANTS, tlc_constants={k: (sorted(x) if isinstance(x, set) else x) for k, x in TIERS[tier].items()},
-        traces_validated_against_impl=total, cases_emitted=len(lines), replayed_per_backend=per_backend,
+        traces_validated_against_impl=total, cases_emitted=len(lines), simulated_large_spec_cases=len(sim_lines), simulated_states=sim.generated, replayed_per_backend=per_backend,
         spec_setting_groups=specs, evaluations=total, distinct_nontrivial=nontriv,
         rule=("TLC enumerates every well-formed spec reachable by <= MaxPlace modifier placements from the pool "
               "(2 channels x 2 samples x 10 modifier identities of all 7 types, bins in BinChoices) x settings x points; "
